@@ -625,7 +625,7 @@ class SymtableCodeGen(AbstractCodeGen):
                 raise error.PySmiSemanticError('Unknown parent symbol: %s' % sym)
 
         self._out['_symtable_order'] = list(self._symsOrder)
-        self._out['_symtable_cols'] = list(self._cols)
+        self._out['_symtable_cols'] = [self.transOpers(x) for x in self._cols]
         self._out['_symtable_rows'] = list(self._rows)
 
         debug.logger & debug.flagCodegen and debug.logger(
